@@ -2,6 +2,7 @@
 C08 — future_sync runs in its slot and cancels cleanly when dropped.
 -/
 import DesyncModel.Spec
+import DesyncModel.Tables.FutureDrop
 import DesyncModel.Tables.Claim
 import DesyncModel.FactSyncFuture
 import DesyncModel.Lemmas
@@ -29,24 +30,25 @@ theorem starts_only_in_slot (s s' : State) (a u : Nat) (act : Act) (o : Obs) (sf
     cases hbeg
 
 /-- Dropping the returned future destroys the user future FIRST (event `cancel`, if the operation was
-open) and only then releases the slot (`doneSent`): two separate steps in this order ... -/
+open), then drops the scheduler future (which hands back a queue that is waiting to be polled by it: `fdDrop`), and only
+then releases the slot (`doneSent`): separate steps in this order ... -/
 theorem drop_destroys_then_releases (s s' : State) (a u : Nat) (act : Act) (o : Obs) (sf : SyncFut)
     (ha : s.acts[a]? = some act) (hc : act.child = none) (hpc : act.pc = .sfDrop u) (hu : s.sfs[u]? = some sf)
     (hstep : stepAct s a = some (s', o)) :
     ∃ sf' act', s'.sfs[u]? = some sf' ∧ sf'.doneSent = sf.doneSent ∧ (sf.userBegun = true → sf'.userEnded = true) ∧
-      s'.acts[a]? = some act' ∧ act'.pc = .sfDropDone u := by
+      s'.acts[a]? = some act' ∧ act'.pc = .fdDrop sf.f (.sfDropDone u) := by
   unfold stepAct at hstep
   simp only [ha, hc, hpc, hu, Option.isSome_none, Bool.false_eq_true, ↓reduceIte] at hstep
   have hlt : u < s.sfs.length := lt_of_getElem?_some hu
   split at hstep
   · next hopen =>
     obtain ⟨rfl, _⟩ := Prod.mk.inj (Option.some.inj hstep)
-    refine ⟨{ sf with userEnded := true, userReg := none, readyWaker := none }, { act with pc := .sfDropDone u }, ?_, rfl, fun _ => rfl, ?_, rfl⟩
+    refine ⟨{ sf with userEnded := true, userReg := none, readyWaker := none }, { act with pc := .fdDrop sf.f (.sfDropDone u) }, ?_, rfl, fun _ => rfl, ?_, rfl⟩
     · simp [State.setSf, hlt]
     · exact acts_goto_self _ (by simpa using ha)
   · next hnot =>
     obtain ⟨rfl, _⟩ := Prod.mk.inj (Option.some.inj hstep)
-    refine ⟨{ sf with userReg := none, readyWaker := none }, { act with pc := .sfDropDone u }, ?_, rfl, ?_, ?_, rfl⟩
+    refine ⟨{ sf with userReg := none, readyWaker := none }, { act with pc := .fdDrop sf.f (.sfDropDone u) }, ?_, rfl, ?_, ?_, rfl⟩
     · simp [State.setSf, hlt]
     · intro hb
       cases he : sf.userEnded with
